@@ -97,6 +97,8 @@ PhaseWriteKeys(pr, j) ==
     IF IsDelegated(pr, j) THEN { pr.snap.cr.phases[j].phaseKey } ELSE Range(PhaseObjKeys(pr, j))
 
 ManagedKeys(pr) == UNION { PhaseWriteKeys(pr, j) : j \in 1..NPhases(pr) }
+\* k was seen present and passing in this pass (a key that never occurs in the trace - a phase object never created - was not)
+ObsOK(pr, k) == k \in Keys /\ pr.obs[k].valid /\ pr.obs[k].present /\ pr.obs[k].passes
 
 \* every object key listed in the owner (inline or via loaded slices), delegated or not
 ListedObjKeys(pr) == UNION { Range(PhaseObjKeys(pr, j)) : j \in 1..NPhases(pr) }
@@ -241,7 +243,7 @@ ConfRemoteOK(e) ==
     (IsSetActor(e.actor) /\ e.ev = "PassEnd" /\ pr.hasSnap /\ Rollout(pr))
     => \A j \in 1..NPhases(pr) :
          (IsDelegated(pr, j) /\ pr.snap.cr.phases[j].phaseKey \in Keys /\ pr.phfirst[pr.snap.cr.phases[j].phaseKey].valid
-            /\ \A i \in 1..(j - 1) : \A x \in PhaseWriteKeys(pr, i) : pr.obs[x].valid /\ pr.obs[x].present /\ pr.obs[x].passes)
+            /\ \A i \in 1..(j - 1) : \A x \in PhaseWriteKeys(pr, i) : ObsOK(pr, x))
          => LET k == pr.snap.cr.phases[j].phaseKey
                 op == RP!RemoteOp(SnapPaused(pr), PhRec(pr.phfirst[k].o))
                 did(v) == \E i \in DOMAIN pr.phw : pr.phw[i] = <<k, v>>
@@ -513,7 +515,7 @@ Act_C02_RevisionFixed ==
 
 \* every object of phase j - also those in its slices: a slice that could not be read hides objects nobody judged -
 \* was seen present and passing
-AllOK(pr, j) == /\ \A k \in PhaseWriteKeys(pr, j) : pr.obs[k].valid /\ pr.obs[k].present /\ pr.obs[k].passes
+AllOK(pr, j) == /\ \A k \in PhaseWriteKeys(pr, j) : ObsOK(pr, k)
                 /\ Range(pr.snap.cr.phases[j].slices) \cap pr.sliceMissing = {}
 
 Inv_C03_Gate ==
@@ -602,7 +604,8 @@ Inv_C05_DeleteOnlyController ==
 Inv_C05_StoreEnforces ==
     (lw.valid /\ IsWrite(W.ev) /\ W.ev = "Delete" /\ ~W.dry /\ W.actor \notin {"env", "sim"} /\ W.pre.exists)
     => /\ ((W.args.hasUID /\ W.args.uid # W.pre.uid) \/ (W.args.hasRV /\ W.args.rv # W.pre.rv))
-            => (W.res = "Conflict" /\ W.post = W.pre)
+            \* (a request whose response was lost - injected fault "after" - shows as Fault; its effect is what counts)
+            => ((W.res = "Conflict" \/ (W.res = "Fault" /\ W.args.lost)) /\ W.post = W.pre)
        /\ W.res = "ok" => ((W.args.hasUID => W.args.uid = W.pre.uid) /\ (W.args.hasRV => W.args.rv = W.pre.rv))
 
 \* whatever the interleaving: an object PKO deletes is controlled by the deleting owner at that instant
@@ -656,7 +659,8 @@ SeenControlled(pr) ==
     { k \in Keys : pr.obs[k].valid /\ pr.obs[k].present /\ pr.obs[k].ctrl /\ k \in ListedObjKeys(pr) /\ ~IsDelegatedKey(pr, k) }
     \* (the phase loop's read of the phase object, i.e. the FIRST read in the pass: a later read for the Paused condition
     \*  may already find it changed or gone)
-    \cup UNION { IF IsSetActor(pr.actor) /\ IsDelegated(pr, j) /\ pr.phfirst[pr.snap.cr.phases[j].phaseKey].valid
+    \cup UNION { IF IsSetActor(pr.actor) /\ IsDelegated(pr, j) /\ pr.snap.cr.phases[j].phaseKey \in Keys
+                      /\ pr.phfirst[pr.snap.cr.phases[j].phaseKey].valid
                    THEN Range(pr.phfirst[pr.snap.cr.phases[j].phaseKey].o.cr.controllerOf) ELSE {}
                  : j \in 1..NPhases(pr) }
 
@@ -681,8 +685,9 @@ NormalEnd(pr) == ~pr.apiErr /\ ~(\E k \in Keys : IsRefusal(pr.verdict[k])) /\ pr
 \* pass only for the Paused condition is not "seen" by the phase loop)
 SeenControlledReached(pr) ==
     { k \in Keys : pr.obs[k].valid /\ pr.obs[k].present /\ pr.obs[k].ctrl /\ k \in ListedObjKeys(pr) /\ ~IsDelegatedKey(pr, k) }
-    \cup UNION { IF IsSetActor(pr.actor) /\ IsDelegated(pr, j) /\ pr.phfirst[pr.snap.cr.phases[j].phaseKey].valid
-                      /\ (\A i \in 1..(j - 1) : \A x \in PhaseWriteKeys(pr, i) : pr.obs[x].valid /\ pr.obs[x].present /\ pr.obs[x].passes)
+    \cup UNION { IF IsSetActor(pr.actor) /\ IsDelegated(pr, j) /\ pr.snap.cr.phases[j].phaseKey \in Keys
+                      /\ pr.phfirst[pr.snap.cr.phases[j].phaseKey].valid
+                      /\ (\A i \in 1..(j - 1) : \A x \in PhaseWriteKeys(pr, i) : ObsOK(pr, x))
                    THEN Range(pr.phfirst[pr.snap.cr.phases[j].phaseKey].o.cr.controllerOf) ELSE {}
                  : j \in 1..NPhases(pr) }
 Inv_C06_ControllerOfComplete ==
@@ -749,7 +754,7 @@ PhasePauseOK(pr, j) ==
     (k \in Keys /\ pr.reads[k].valid /\ pr.reads[k].o.exists /\ store[k].exists /\ store[k].uid = pr.reads[k].o.uid /\ IsCtrl(pr, store[k]))
     => store[k].cr.paused = SnapPaused(pr)
 PassEndedOK == PassEnded /\ IsSetActor(W.actor) /\ W.res = "ok" /\ PE.hasSnap /\ Rollout(PE) /\ ~PE.apiErr
-ReachedPhase(pr, j) == \A i \in 1..(j - 1) : (\A k \in PhaseWriteKeys(pr, i) : pr.obs[k].valid /\ pr.obs[k].present /\ pr.obs[k].passes)
+ReachedPhase(pr, j) == \A i \in 1..(j - 1) : (\A k \in PhaseWriteKeys(pr, i) : ObsOK(pr, k))
 Inv_C09_PhasePauseFollows ==
     PassEndedOK => \A j \in 1..NPhases(PE) : (IsDelegated(PE, j) /\ ReachedPhase(PE, j)) => PhasePauseOK(PE, j)
 \* ... and the phases behind a failing phase (the loop stops at the first failing phase; known finding)
